@@ -38,9 +38,11 @@ def main(n=160, seed=7):
     if pairs is None or len(pairs) != len(args) or len(rust) != len(args):
         print("selftest: could not evaluate (%s)" % txt[-800:])
         return 1
-    bad = [(a, F(p[0], p[1]), q) for a, p, q in zip(args, pairs, rust) if F(p[0], p[1]) != q]
+    from . import surrogate as SG
+    py = [getattr(SG, "s" + nm)(x) for nm, x in args]
+    bad = [(a, F(p[0], p[1]), q, y) for a, p, q, y in zip(args, pairs, rust, py) if F(p[0], p[1]) != q or q != y]
     if bad:
-        print("selftest: surrogate disagreement Rust vs Coq:", bad[:3])
+        print("selftest: surrogate disagreement (arg, Coq, Rust, Python):", bad[:3])
         return 1
-    print("selftest: %d surrogate evaluations agree (Rust BigInt vs Coq Z)" % len(args))
+    print("selftest: %d surrogate evaluations agree (Rust BigInt vs Coq Z vs Python oracle port)" % len(args))
     return 0
